@@ -1,6 +1,6 @@
 /-
-Lemmas/SemDedup.lean — DeduplicateInitializersPass model (`dedupG`) preserves the denotation when
-equal deduplication keys mean equal tensors (`dedupFaithfulG`).
+Lemmas/SemDedup.lean — DeduplicateInitializersPass model (`dedupG`) preserves the denotation (the
+deduplication key is the tensor).
 -/
 import IrVerif.Lemmas.SemIdentity
 namespace IrVerif.Passes
@@ -177,14 +177,12 @@ theorem dedup_rel_inits (I : Interp Val) (limit : Nat) (io : List VId) (inits : 
 
 mutual
 theorem dedupG_sound (I : Interp Val) (limit : Nat) : ∀ (g : Graph) (σ : Subst) (ρ ρ' : Env Val),
-    Rel σ ρ ρ' → SubstOK σ (defsG g) → ssaG g = true → closedG g = true → dedupFaithfulG g = true →
+    Rel σ ρ ρ' → SubstOK σ (defsG g) → ssaG g = true → closedG g = true →
     evalG I g ρ = evalG I (dedupG limit σ g) ρ'
-  | .mk inputs outputs inits nodes, σ, ρ, ρ', hrel, hok, hs, hc, hfa => by
+  | .mk inputs outputs inits nodes, σ, ρ, ρ', hrel, hok, hs, hc => by
     funext xs
     simp only [ssaG, Bool.and_eq_true, nodupB_iff, disj_iff] at hs
     simp only [closedG, Bool.and_eq_true, List.all_eq_true] at hc
-    simp only [dedupFaithfulG, Bool.and_eq_true, List.all_eq_true, Bool.or_eq_true, bne_iff_ne, ne_eq,
-      beq_iff_eq] at hfa
     obtain ⟨⟨⟨_, hndt⟩, hdisj⟩, hsn⟩ := hs
     obtain ⟨hsub, hb, hcc⟩ := dedupInits_spec limit (inputs ++ outputs) inits [] []
       (fun key k h => by simp at h)
@@ -193,10 +191,13 @@ theorem dedupG_sound (I : Interp Val) (limit : Nat) : ∀ (g : Graph) (σ : Subs
     have hokI : SubstOK σ (inits.map Prod.fst) :=
       hok.mono (fun v hv => by simp only [defsG, List.mem_append]; exact Or.inl (Or.inr hv))
     have hfaith : ∀ p ∈ inits, ∀ q ∈ inits, dedupKey p.2 = dedupKey q.2 → p.2 = q.2 := by
-      intro p hp q hq hk
-      rcases hfa.1 p hp q hq with h | h
-      · exact absurd hk h
-      · exact h
+      intro p _ q _ hk
+      obtain ⟨_, t1⟩ := p
+      obtain ⟨_, t2⟩ := q
+      cases t1; cases t2
+      simp only [dedupKey, Prod.mk.injEq] at hk
+      simp only [Tensor.mk.injEq]
+      exact ⟨hk.1, hk.2.1, hk.2.2.1, hk.2.2.2⟩
     have hrel0 := dedup_rel_inits I limit (inputs ++ outputs) inits σ ρ ρ' hrel hokI hndt hfaith
     -- domain and range of the new replacements are initializer ids
     have hpairs : ∀ p ∈ (dedupInits limit (inputs ++ outputs) [] inits).2,
@@ -237,7 +238,7 @@ theorem dedupG_sound (I : Interp Val) (limit : Nat) : ∀ (g : Graph) (σ : Subs
     have key := dedupNodes_sound I limit nodes _ _ _ hrel1
       (hok' (defsNodes nodes) (fun v hv h => hdisj v (by simp [h]) hv)
         (hok.mono (fun v hv => by simp only [defsG, List.mem_append]; exact Or.inr hv)))
-      hsn hc.2 hfa.2
+      hsn hc.2
     apply List.map_congr_left
     intro o ho
     have ho' : Subst.app ((dedupInits limit (inputs ++ outputs) [] inits).2 ++ σ) o = o := by
@@ -251,35 +252,33 @@ theorem dedupG_sound (I : Interp Val) (limit : Nat) : ∀ (g : Graph) (σ : Subs
     exact this
 theorem dedupNodes_sound (I : Interp Val) (limit : Nat) : ∀ (ns : List Node) (σ : Subst) (ρ ρ' : Env Val),
     Rel σ ρ ρ' → SubstOK σ (defsNodes ns) → ssaNodes ns = true → closedNodes ns = true →
-    dedupFaithfulNodes ns = true → Rel σ (evalNodes I ns ρ) (evalNodes I (dedupNodes limit σ ns) ρ')
-  | [], _, _, _, hrel, _, _, _, _ => by simpa [dedupNodes, evalNodes] using hrel
-  | .mk op attrs ins outs bodies :: ns, σ, ρ, ρ', hrel, hok, hs, hc, hfa => by
+    Rel σ (evalNodes I ns ρ) (evalNodes I (dedupNodes limit σ ns) ρ')
+  | [], _, _, _, hrel, _, _, _ => by simpa [dedupNodes, evalNodes] using hrel
+  | .mk op attrs ins outs bodies :: ns, σ, ρ, ρ', hrel, hok, hs, hc => by
     simp only [ssaNodes, ssaN, Bool.and_eq_true] at hs
     simp only [closedNodes, closedN, Bool.and_eq_true] at hc
-    simp only [dedupFaithfulNodes, Bool.and_eq_true] at hfa
     simp only [dedupNodes, evalNodes]
     refine dedupNodes_sound I limit ns σ _ _ ?_
-      (hok.mono (fun v hv => by simp only [defsNodes, List.mem_append]; exact Or.inr hv)) hs.2 hc.2 hfa.2
+      (hok.mono (fun v hv => by simp only [defsNodes, List.mem_append]; exact Or.inr hv)) hs.2 hc.2
     simp only [evalN]
     rw [hrel.args ins, dedupBodies_sound I limit bodies σ ρ ρ' hrel
       (hok.mono (fun v hv => by simp only [defsNodes, defsN, List.mem_append]; exact Or.inl (Or.inr hv)))
-      hs.1.1.2 hc.1 hfa.1]
+      hs.1.1.2 hc.1]
     exact Rel.bind hrel (hok.mono (fun v hv => mem_defsNodes_of_mem_outs hv)) _
 theorem dedupBodies_sound (I : Interp Val) (limit : Nat) : ∀ (bs : List Graph) (σ : Subst) (ρ ρ' : Env Val),
     Rel σ ρ ρ' → SubstOK σ (defsBodies bs) → ssaBodies bs = true → closedBodies bs = true →
-    dedupFaithfulBodies bs = true → evalBodies I bs ρ = evalBodies I (dedupBodies limit σ bs) ρ'
-  | [], _, _, _, _, _, _, _, _ => by simp [dedupBodies, evalBodies]
-  | b :: bs, σ, ρ, ρ', hrel, hok, hs, hc, hfa => by
+    evalBodies I bs ρ = evalBodies I (dedupBodies limit σ bs) ρ'
+  | [], _, _, _, _, _, _, _ => by simp [dedupBodies, evalBodies]
+  | b :: bs, σ, ρ, ρ', hrel, hok, hs, hc => by
     simp only [ssaBodies, Bool.and_eq_true] at hs
     simp only [closedBodies, Bool.and_eq_true] at hc
-    simp only [dedupFaithfulBodies, Bool.and_eq_true] at hfa
     simp only [dedupBodies, evalBodies]
     rw [dedupG_sound I limit b σ ρ ρ' hrel
           (hok.mono (fun v hv => by simp only [defsBodies, List.mem_append]; exact Or.inl hv))
-          hs.1.1 hc.1 hfa.1,
+          hs.1.1 hc.1,
         dedupBodies_sound I limit bs σ ρ ρ' hrel
           (hok.mono (fun v hv => by simp only [defsBodies, List.mem_append]; exact Or.inr hv))
-          hs.2 hc.2 hfa.2]
+          hs.2 hc.2]
 end
 
 end IrVerif.Passes
